@@ -23,7 +23,8 @@ EXPLANATION = (
     "self.uri in Request._writeHeaders is the argument of its validator, no refusal can follow a transport write, the Host-count test decides every write, __init__ stores "
     "validated values, the framing line of each _writeTo* is paired with its encoder class and writeTo dispatches on UNKNOWN_LENGTH; failure of the generation (HTTP11ClientProtocol.request): the errback of writeTo's Deferred aborts the connection on every path "
     "while transmitting and leaves a state other than the accepting one (derived from request()'s entry guard), and the handler of an exception raised by writeTo itself hands a failed "
-    "Deferred to that same errback on every path (or aborts itself) and never restores the accepting state - sync and async failure paths agree.  BOUNDED second layer (clauses with bounded "
+    "Deferred to that same errback on every path (or aborts itself) and never restores the accepting state - sync and async failure paths agree; every call of Request.stopWriting() in the protocol (the only way to cut a started body short) lies behind an errback of the "
+    "request Deferred / an abort or close of the transport / a terminal connection state on every path (who-may-call, judged at the callers when it sits in a helper).  BOUNDED second layer (clauses with bounded "
     "evidence only: exact head bytes, header-line format, chunk format, terminator-once, Content-Length accounting, head-before-body order): "
     "Every clause is decided by interpreting the repository's own functions (whitelisted evaluator over the AST; classes become model objects whose methods are "
     "the class's functions, nested functions are closures, Deferred/transport/producer are synchronous models; nothing is imported or executed) and comparing "
@@ -36,11 +37,12 @@ EXPLANATION = (
     "(empty write not encoded: F24, fixed), no terminator when the producer fails, writes after the end refused; Content-Length: exact / short / excess / late "
     "writes give success / WrongBodyLength / WrongBodyLength with the producer stopped and no excess byte forwarded / ExcessWrite. (f) body producers failing at several points (raising from startProducing before / after writing, errback at once / later; known length / chunked) "
     "followed by a second request on the same protocol: once a byte of the failed request is on the wire no byte of another request follows, the caller gets "
-    "RequestGenerationFailed, the connection is aborted. Not decided: parse-back by an independent parser for arbitrary inputs."
+    "RequestGenerationFailed, the connection is aborted; (g) the complete response arriving while the body is still being produced: the producer is not stopped, the whole "
+    "announced body reaches the wire, the caller gets the response. Not decided: parse-back by an independent parser for arbitrary inputs."
 )
 RULE_KINDS = {
     "failure/aborts-connection": "structural", "failure/leaves-refusing-state": "structural", "failure/sync-agrees-with-async": "structural",
-    "failure/no-request-after-failed-generation": "bounded",
+    "failure/no-request-after-failed-generation": "bounded", "body/stopped-only-on-failure": "structural", "body/complete-when-response-arrives-early": "bounded",
     "validator/token-set": "finite-exhaustive", "validator/uri-class": "finite-exhaustive", "validator/decision": "finite-exhaustive", "validator/accepts-exactly": "finite-exhaustive",
     "validator/token-nonempty": "finite-exhaustive", "chunked/empty-write-guard": "finite-exhaustive",
     "sink/": "structural", "framing/pairing": "structural", "framing/choice": "structural",
@@ -462,6 +464,118 @@ def _s_generation_failure(ctx):
                   "request() can return with the connection still usable", witness=g.describe(w))
 
 
+FAIL_MARKERS = ("self._finishedRequest.errback", "self.transport.abortConnection", "self.transport.loseConnection", "self._giveUp", "self._disconnectParser")
+
+
+def _s_who_stops_writing(ctx):
+    """STRUCTURAL (who-may-call, by role): Request.stopWriting() is the only way the protocol can cut short a body whose head (Content-Length: N / chunked) is already on the wire.
+    Every call site in HTTP11ClientProtocol lies on a path on which the exchange has already been failed or the connection given up - the request Deferred was errbacked, the
+    transport aborted / closed, or the state set to a terminal connection state - BEFORE the call; a site in a helper is judged at each of the helper's call sites"""
+    from sa.source import methods as _methods_of
+    cls = ctx.cls(P, "HTTP11ClientProtocol")
+    ms = _methods_of(cls)
+    q = Q + "HTTP11ClientProtocol."
+    TERMINAL = {"CONNECTION_LOST", "ABORTING"}
+
+    def ended_before(fn, node_call, depth=0):
+        """True / False / None(not understood): on every path of fn to the call the exchange was ended"""
+        g = ctx.cfg(fn)
+        ids = g.ids_of(node_call)
+        if not ids:
+            return None
+        marks = [n for n, c in named_calls(g, *FAIL_MARKERS)]
+        marks += [n for n in g.ids(lambda x: x.kind == "stmt" and isinstance(x.ast, ast.Assign) and any(src(t) == "self._state" for t in x.ast.targets)
+                                   and isinstance(x.ast.value, ast.Constant) and x.ast.value.value in TERMINAL)]
+        if marks and all(g.must_precede(marks, [i], exc=False) is None for i in ids):
+            return True
+        # not ended inside this function: every caller must have ended it before calling
+        callers = [(f2, c2) for f2 in ms.values() if f2 is not fn for c2 in ast.walk(f2)
+                   if isinstance(c2, ast.Call) and isinstance(c2.func, ast.Attribute) and src(c2.func.value) == "self" and c2.func.attr == fn.name]
+        if not callers or depth > 2:
+            return False if fn.name.startswith("_") or depth > 2 else None
+        rs = [ended_before(f2, c2, depth + 1) for f2, c2 in callers]
+        return None if None in rs else all(rs)
+    sites = [(fn, c) for fn in ms.values() for c in ast.walk(fn) if isinstance(c, ast.Call) and call_attr(c) == "stopWriting"]
+    # nested functions of the methods are part of them (ast.walk enters them): a canceller closure calling stopWriting is judged in its enclosing method
+    if not sites:
+        raise Abstain("no stopWriting() call in HTTP11ClientProtocol (the floor of one site is not met): who stops a started body was not recognised")
+    for fn, c in sites:
+        v = ended_before(fn, c)
+        if v is None:
+            raise Abstain(f"whether the exchange has been failed before {src(c)} in {fn.name} was not understood")
+        ctx.check(v, "body/stopped-only-on-failure", q + f"{fn.name} | {src(c)}",
+                  f"{fn.name} stops the request body although the exchange goes on: the head announcing Content-Length / chunked is already on the wire, the body is cut short (fewer bytes "
+                  "than announced, or a chunked body without its last-chunk) and nothing reports it - the request Deferred still succeeds")
+
+
+def _body_continues_evaluated(ctx):
+    """BOUNDED: the complete response arrives WHILE the request body is still being produced (known length and chunked; persistent and not); the producer then writes the rest.
+    Oracle: the protocol never stops the producer, the bytes on the wire are the whole announced body, the caller gets the response"""
+    import sa.props.c23 as c23
+    w = c23._client_world(ctx)
+    q = Q + "HTTP11ClientProtocol"
+    UNK = w.env["UNKNOWN_LENGTH"]
+
+    class Body:
+        _sa_model = True
+
+        def __init__(self, length):
+            self.length, self.done, self.stopped, self.consumer = length, None, 0, None
+
+        def startProducing(self, consumer):
+            self.consumer = consumer
+            self.done = MDeferred()
+            consumer.write(b"0123")
+            return self.done
+
+        def stopProducing(self):
+            self.stopped += 1
+
+        def pauseProducing(self):
+            return None
+
+        def resumeProducing(self):
+            return None
+    bad, n = [], 0
+    for length in (10, UNK):
+        for persistent in (True, False):
+            for resp in (b"HTTP/1.1 200 OK\r\nContent-Length: 2\r\n\r\nok", b"HTTP/1.1 413 Too Large\r\nContent-Length: 0\r\n\r\n"):
+                n += 1
+                p = w.new("HTTP11ClientProtocol")
+                tr = c23._ETransport()
+                p.makeConnection(tr)
+                body = Body(length)
+                r1 = w.new("Request", b"POST", b"/upload", c23._EHeaders({b"Host": [b"x"]}), body, persistent)
+                label = f"POST with a {'chunked' if length is UNK else 'Content-Length: 10'} body, 4 bytes written, then the whole response {resp[9:12].decode()} arrives, then the producer writes the other 6 bytes and finishes"
+                try:
+                    d = p.request(r1)
+                    box = []
+                    d.addBoth(lambda r, box=box: (box.append(r), None)[1])
+                    tr.deliver = p.dataReceived
+                    tr.feed(resp)
+                    why = []
+                    if body.stopped:
+                        why.append(f"the protocol stopped the body producer ({body.stopped}x) although the exchange went on")
+                    try:
+                        body.consumer.write(b"456789")
+                        body.done.callback(None)
+                    except ModelRaised as e:
+                        why.append(f"the rest of the body is refused ({e.name})")
+                    wire = b"".join(tr.out)
+                    payload = wire.split(b"\r\n\r\n", 1)[1] if b"\r\n\r\n" in wire else b""
+                    want = b"0123456789" if length is not UNK else b"4\r\n0123\r\n6\r\n456789\r\n0\r\n\r\n"
+                    if payload != want and "abort" not in tr.log and "lose" not in tr.log:
+                        why.append(f"the body on the wire is {payload!r} instead of {want!r} and the connection was neither closed nor aborted")
+                    if not box or isinstance(box[0], MFailure):
+                        why.append(f"the caller gets {box[0].value.name if box else 'nothing'} instead of the response")
+                    if why:
+                        bad.append((label, "; ".join(why)))
+                except ModelRaised as e:
+                    bad.append((label, f"raises {e.name}"))
+    msg = f"{bad[0][0]}: {bad[0][1]}; {len(bad)} of {n} histories wrong" if bad else ""
+    ctx.check(not bad, "body/complete-when-response-arrives-early", q + " | <response complete while the body is being produced>", msg, detail=f"{n} histories")
+
+
 def _failure_evaluated(ctx):
     """BOUNDED: protocol + Request interpreted; body producers that fail at several points; then a second request on the same protocol.  Oracle: once a byte of the failed request is
     on the wire, no byte of another request may follow on that connection, and the caller is told RequestGenerationFailed"""
@@ -537,6 +651,8 @@ def _failure_evaluated(ctx):
 def check(ctx):
     sections = (("s-generation-failure", lambda c: structural(c, "failure/aborts-connection", "failure/no-request-after-failed-generation (bounded)", _s_generation_failure, c)),
                 ("failure-evaluated", _failure_evaluated),
+                ("s-who-stops-writing", lambda c: structural(c, "body/stopped-only-on-failure", "body/complete-when-response-arrives-early (bounded)", _s_who_stops_writing, c)),
+                ("body-continues", _body_continues_evaluated),
                 ("fe-validators", lambda c: structural(c, "validator/token-set", "validator/accepts-exactly (evaluated on all byte values in context)", _fe_validators, c)),
                 ("s-write-headers", lambda c: structural(c, "sink/validated-at-sink", "sink/head-bytes + sink/refused-before-write-evaluated (bounded)", _s_write_headers, c)),
                 ("s-framing", lambda c: structural(c, "framing/pairing", "framing/head-matches-encoder (bounded)", _s_framing, c)),
@@ -829,6 +945,7 @@ def _outcome_peek(d):
 
 
 MUTANTS = [
+    Mutant("body-stopped-as-soon-as-the-server-answers", P, '        Handle some stuff from some place.\n        """\n        try:\n            self._parser.dataReceived(bytes)', '        Handle some stuff from some place.\n        """\n        if self._state == "TRANSMITTING" and self._currentRequest is not None:\n            self._currentRequest.stopWriting()\n        try:\n            self._parser.dataReceived(bytes)', expect_rule="body/"),
     Mutant("head-lines-generator-skips-method-validation", P, "        requestLines = []\n        requestLines.append(\n            b\" \".join(\n                [\n                    _ensureValidMethod(self.method),\n                    _ensureValidURI(self.uri),\n                    b\"HTTP/1.1\\r\\n\",\n                ]\n            ),\n        )\n        if not self.persistent:\n            requestLines.append(b\"Connection: close\\r\\n\")\n        if TEorCL is not None:\n            requestLines.append(TEorCL)\n        for name, values in self.headers.getAllRawHeaders():\n            requestLines.extend([name + b\": \" + v + b\"\\r\\n\" for v in values])\n        requestLines.append(b\"\\r\\n\")\n        transport.writeSequence(requestLines)\n", "        transport.writeSequence(list(self._headLines(TEorCL)))\n\n    def _headLines(self, framing):\n        yield b\" \".join([self.method, _ensureValidURI(self.uri), b\"HTTP/1.1\\r\\n\"])\n        if not self.persistent:\n            yield b\"Connection: close\\r\\n\"\n        if framing is not None:\n            yield framing\n        for name, values in self.headers.getAllRawHeaders():\n            for v in values:\n                yield name + b\": \" + v + b\"\\r\\n\"\n        yield b\"\\r\\n\"\n", expect_rule="sink/"),
     Mutant("sync-generation-failure-reopens-the-protocol", P, "        except BaseException:\n            _requestDeferred = fail()\n", "        except BaseException:\n            self._state = \"QUIESCENT\"\n            _requestDeferred = fail()\n",
            expect_rule="failure/leaves-refusing-state"),
@@ -870,6 +987,7 @@ MUTANTS = [
     Mutant("empty-header-values-dropped", P, "            requestLines.extend([name + b\": \" + v + b\"\\r\\n\" for v in values])", "            requestLines.extend([name + b\": \" + v + b\"\\r\\n\" for v in values if len(v) > 0])"),
 ]
 SILENT = [
+    Silent("stop-writing-through-a-helper-called-after-the-failure", P, '        # Tell the request that it should stop bothering now.\n        self._currentRequest.stopWriting()\n', '        self._stopRequestBody()\n\n    def _stopRequestBody(self):\n        # Tell the request that it should stop bothering now.\n        self._currentRequest.stopWriting()\n'),
     Silent("head-lines-from-a-generator-method", P, "        requestLines = []\n        requestLines.append(\n            b\" \".join(\n                [\n                    _ensureValidMethod(self.method),\n                    _ensureValidURI(self.uri),\n                    b\"HTTP/1.1\\r\\n\",\n                ]\n            ),\n        )\n        if not self.persistent:\n            requestLines.append(b\"Connection: close\\r\\n\")\n        if TEorCL is not None:\n            requestLines.append(TEorCL)\n        for name, values in self.headers.getAllRawHeaders():\n            requestLines.extend([name + b\": \" + v + b\"\\r\\n\" for v in values])\n        requestLines.append(b\"\\r\\n\")\n        transport.writeSequence(requestLines)\n", "        transport.writeSequence(list(self._headLines(TEorCL)))\n\n    def _headLines(self, framing):\n        yield b\" \".join([_ensureValidMethod(self.method), _ensureValidURI(self.uri), b\"HTTP/1.1\\r\\n\"])\n        if not self.persistent:\n            yield b\"Connection: close\\r\\n\"\n        if framing is not None:\n            yield framing\n        for name, values in self.headers.getAllRawHeaders():\n            for v in values:\n                yield name + b\": \" + v + b\"\\r\\n\"\n        yield b\"\\r\\n\"\n"),
     Silent("sync-generation-failure-explicit-failure", P, "        except BaseException:\n            _requestDeferred = fail()\n", "        except BaseException:\n            _requestDeferred = fail(Failure())\n"),
     Silent("generation-failure-aborts-before-recording-the-state", P, "                self._state = \"GENERATION_FAILED\"\n                self.transport.abortConnection()\n", "                self.transport.abortConnection()\n                self._state = \"GENERATION_FAILED\"\n"),
